@@ -30,7 +30,13 @@ def _get_range_start_end(rng: ast.Call) -> Tuple[ast.AST, ast.AST]:
 
 
 def _parse_sympy_expr(expression):
-    return sympy.parsing.sympy_parser.parse_expr(expression)
+    # Variables of the program are symbols, also when a builtin or a sympy function has the same name
+    root = ast.parse(expression)
+    called_names = {node.func.id for node in ast.walk(root) if isinstance(node, ast.Call) and isinstance(node.func, ast.Name)}
+    variable_names = {node.id for node in ast.walk(root) if isinstance(node, ast.Name)} - called_names
+    return sympy.parsing.sympy_parser.parse_expr(
+        expression, local_dict={name: sympy.Symbol(name) for name in variable_names}
+    )
 
 
 def _ast_to_symmath_expr_conversion(node, conversion):
